@@ -233,7 +233,8 @@ ACCEPT_TABLE = {
     r"^<stream::tcp::TcpStream as info::HasConnectionInfo>::info\|result-unwrap\|expect\|local_addr is available for stream\|<=TcpStream::local_addr$": ("by-construction", "getsockname(2) on a valid connected/accepted socket fd does not fail because of the peer"),
     r"^<stream::tcp::TcpStream as info::HasConnectionInfo>::info\|result-unwrap\|expect\|peer_addr is available for stream\|<=TcpStream::peer_addr$": ("guarded", "server-side streams carry the remote address given by accept(): peer_addr() is only consulted when `remote` is None",
                                                                                                      lambda facts, s: _guard_remote_none(facts, s)),
-    r"^<stream::unix::UnixStream as info::HasConnectionInfo>::info\|result-unwrap\|expect\|peer_addr is available for unix stream\|<=UnixStream::peer_addr$": ("by-construction", "UnixStream::peer_addr returns the stored remote address for accepted streams (Some(remote) is always passed by poll_accept; checked by C09.1 closure rule); conversion of the stored value cannot fail"),
+    r"^<stream::unix::UnixStream as info::HasConnectionInfo>::info\|result-unwrap\|expect\|peer_addr is available for unix stream\|<=UnixStream::peer_addr$": ("guarded", "accepted unix streams are built with remote = Some(..) and UnixStream::peer_addr answers Ok(stored) whenever remote is Some: the fallible socket lookup / conversion is confined to remote == None",
+                                                                                                                                                                  lambda facts, s: _guard_unix_remote_some(facts, s)),
     r"^<stream::unix::UnixStream as info::HasConnectionInfo>::info\|result-unwrap\|expect\|local_addr is available for unix stream\|<=UnixStream::local_addr$": ("by-construction", "the local address is the listener's own path: a listener-level condition, not a per-connection one"),
     r"^<server::conn::tls::info::TlsConnectionInfoReciever.*\|": ("by-construction", "receiver state of the TLS info channel"),
     r"^polled_span::\{closure#0\}\|option-unwrap\|expect\|Missing ID; this is a bug\|<=Span::id$": ("by-construction", "tracing span bookkeeping, independent of connection data"),
@@ -256,6 +257,34 @@ def _guard_remote_none(facts, s):
     f = s.fn
     ok, w = f.guarded(s.bb, lambda lab: lab.kind == "variant" and lab.variants == {"None"})
     return ok, "peer_addr().expect is no longer confined to the remote == None arm"
+
+
+def _guard_unix_remote_some(facts, s):
+    """(a) every UnixStream::new on the accept path passes a definite Some(..) as the remote address;
+    (b) in UnixStream::peer_addr every fallible step (any call but Clone) sits behind remote == None."""
+    from core import L_opt
+    news = [c for c in facts.call_sites_of("stream::unix::UnixStream::new") if "Accept for tokio::net::UnixListener" in c.fn.nkey or "UnixListener" in c.fn.nkey]
+    if not news:
+        return False, "no UnixStream::new site on the unix accept path"
+    for c in news:
+        pl = op_place(c.args[1])
+        d = c.fn.unique_def(pl["l"]) if pl is not None and not pl["p"] else None
+        hops = 0
+        while d is not None and d[0] == "stmt" and d[3]["r"]["k"] == "use" and hops < 6:
+            q = op_place(d[3]["r"]["o"])
+            d = c.fn.unique_def(q["l"]) if q is not None and not q["p"] else None
+            hops += 1
+        if not (d is not None and d[0] == "stmt" and d[3]["r"]["k"] == "agg" and d[3]["r"].get("v") == "Some"):
+            return False, "the unix acceptor can build a stream without a stored remote address (remote is not a literal Some(..)): info() would fall back to a socket lookup that fails for a non-UTF-8 peer path"
+    pa = facts.fn("stream::unix::UnixStream::peer_addr")
+    rem = lambda rr: any(r.kind == "arg" and r.desc.endswith("remote") for r in rr)
+    for c in pa.calls():
+        if c.matches(r"Clone.*::clone$"):
+            continue
+        ok, w = pa.guarded(c.bb, L_opt(pa, False, rem))
+        if not ok:
+            return False, "UnixStream::peer_addr performs a fallible step (%s) although the remote address is stored" % norm(c.name)
+    return True, ""
 
 
 def accept_entries(facts):
